@@ -206,7 +206,7 @@ CHECKS = {
         "object (MRO, metaclass, canonical attributes, call script on instance/class/subclass)",
         "Class statements over 6 base shapes, implicit/explicit metaclass, keywords consumed by "
         "__init_subclass__, 0-2 decorators incl. one returning a different object, every member set of "
-        "size <= 2 from 27 member kinds, placed at module level, in a function, in a class, in a class "
+        "size <= 2 from 29 member kinds, placed at module level, in a function, in a class, in a class "
         "in a function, global-declared in a function and captured by a closure; the harness compares "
         "MRO, bases, metaclass, user attributes, where the name is bound and the results of a fixed "
         "call script against the class CPython builds; also after an earlier class statement of the same "
